@@ -429,6 +429,13 @@ def oracle_progress(P):
             c2 = tr.calls[peer]
             if c2["closed"] or c2.get("rerr") or c2.get("werr") or not (c2["res"] or "").startswith("ok:"):
                 continue
+            # the reader really did keep reading while nothing arrived: its last four reads before the marker brought
+            # no data, with the network pumped in between (the oracle does not take the generator's word for it -
+            # and a shrunk replay cannot drop those rounds)
+            reads = [i for i, (op, out) in enumerate(zip(case[:end], impl[:end])) if op.startswith(f"net read {name} ")]
+            if len(reads) < 5 or any(impl[i].startswith("data:") for i in reads[-4:]) \
+                    or any(not any(case[j].startswith("net pump") for j in range(a, b)) for a, b in zip(reads[-4:], reads[-3:] + [end])):
+                continue
             if len(data) < c2["w"]:
                 hits.append({"sig": {"oracle": "net_progress", "what": "stalled_on_a_loss_free_network"},
                              "text": f"{name} has read {len(data)} of the {c2['w']} bytes {peer} wrote; nothing was ever lost, duplicated or reordered, both ends are open and the reader kept reading until four rounds in a row brought nothing"})
@@ -459,6 +466,10 @@ def oracle_completion(P):
             if peer is None or not tr.calls[peer].get("shut"):
                 continue
             c2 = tr.calls[peer]
+            reads = [i for i, (op, out) in enumerate(zip(case[:end], impl[:end])) if op.startswith(f"net read {name} ")]
+            if len(reads) < 5 or any(impl[i].startswith("data:") for i in reads[-4:]) \
+                    or any(not any(case[j].startswith("net pump") for j in range(a, b)) for a, b in zip(reads[-4:], reads[-3:] + [end])):
+                continue
             if len(data) < c2["w"]:
                 hits.append({"sig": {"oracle": "net_completion", "what": "shutdown_ok_but_bytes_never_reach_the_reader"},
                              "text": f"{peer} was told its shutdown succeeded after writing {c2['w']} bytes, but {name}, which kept reading over a loss-free network until nothing arrived any more, got only {len(data)}"})
